@@ -399,14 +399,32 @@ package scipipe
 
 //@ define auditFileOf(t *Task, p string) bool = exists k string :: k in t.OutIPs && p == t.OutIPs[k].path + ".audit.json"
 
+//@ define recordOf(t *Task, a *AuditInfo, startTime time, finishTime time) bool = a != nil && a.Command == t.Command && a.ProcessName == t.Process.name && a.Params == t.Params && a.StartTime == startTime && a.FinishTime == finishTime && a.ExecTimeNS == finishTime - startTime
+//@ define freshRecord(a *AuditInfo) bool = fresh(a) && fresh(a.Upstream) && fresh(a.OutFiles) && fresh(a.Tags) && a.Upstream != nil && a.OutFiles != nil && a.Tags != nil && a.Tags != a.OutFiles && a.Tags != a.Params && a.OutFiles != a.Params
+//@ define outFilesRecorded(t *Task, a *AuditInfo) bool = (forall n string :: n in a.OutFiles <==> n in t.OutIPs) && (forall n string :: n in t.OutIPs ==> a.OutFiles[n] == t.OutIPs[n].path)
+
 //@ func (*Task).writeAuditLogs(t, startTime, finishTime)
 //@   props C01 C10
-//@   requires wf: wfTask(t)
-//@   modifies BaseIP.auditInfo, locked, effCreated, effMkdir, fsEpoch, map[string]string, map[string]*AuditInfo
+//@   requires wf: wfTask(t) && t.Process != nil && t.InIPs != nil
+//@   modifies fresh, BaseIP.auditInfo, locked, effCreated, effMkdir, fsEpoch, map[string]string, map[string]*AuditInfo
 //@   ensures only-audit-files[C01]: forall p string :: effCreated[p] && !old(effCreated)[p] ==> auditFileOf(t, p)
+//@   ensures every-output-carries-the-record[C10]: exists a *AuditInfo :: recordOf(t, a, startTime, finishTime) && outFilesRecorded(t, a) && (forall o string :: o in t.OutIPs ==> t.OutIPs[o].auditInfo == a)
+//@   ensures audit-file-written-for-every-output[C10]: forall o string :: o in t.OutIPs ==> effCreated[t.OutIPs[o].path + ".audit.json"]
+//@   loop 0 invariant rec: recordOf(t, auditInfo, startTime, finishTime) && freshRecord(auditInfo)
+//@   loop 1 invariant rec: recordOf(t, auditInfo, startTime, finishTime) && freshRecord(auditInfo)
+//@   loop 2 invariant rec: recordOf(t, auditInfo, startTime, finishTime) && freshRecord(auditInfo)
+//@   loop 2 invariant vis: forall n string :: $visited[n] ==> n in t.OutIPs
+//@   loop 2 invariant outfiles: (forall n string :: n in auditInfo.OutFiles <==> $visited[n]) && (forall n string :: $visited[n] ==> auditInfo.OutFiles[n] == t.OutIPs[n].path)
+//@   loop 3 invariant rec: recordOf(t, auditInfo, startTime, finishTime) && freshRecord(auditInfo) && outFilesRecorded(t, auditInfo)
 //@   loop 3 invariant vis: forall k string :: $visited[k] ==> k in t.OutIPs
+//@   loop 3 invariant attached: forall k string :: $visited[k] ==> t.OutIPs[k].auditInfo == auditInfo && effCreated[t.OutIPs[k].path + ".audit.json"]
 //@   loop 3 invariant only-audit-files: forall p string :: effCreated[p] && !old(effCreated)[p] ==> auditFileOf(t, p)
-//@   loop 4 invariant rec: oip.auditInfo == auditInfo
+//@   loop 3 invariant grows: forall p string :: old(effCreated)[p] ==> effCreated[p]
+//@   loop 4 invariant rec: recordOf(t, auditInfo, startTime, finishTime) && freshRecord(auditInfo) && outFilesRecorded(t, auditInfo) && oip.auditInfo == auditInfo && oip != nil
+//@   loop 4 invariant attached: forall k string :: $visited3[k] && t.OutIPs[k] != oip ==> t.OutIPs[k].auditInfo == auditInfo && effCreated[t.OutIPs[k].path + ".audit.json"]
+//@   loop 4 invariant cur: exists k string :: k in t.OutIPs && t.OutIPs[k] == oip
+//@   loop 4 invariant only-audit-files: forall p string :: effCreated[p] && !old(effCreated)[p] ==> auditFileOf(t, p)
+//@   loop 4 invariant grows: forall p string :: old(effCreated)[p] ==> effCreated[p]
 
 // ---------------------------------------------------------------------------
 // workflow.go: task slots (C06, C07)
